@@ -287,6 +287,33 @@ def main():
             except Stage as e:
                 broken.append({'stage': 'cxx', 'detail': 'the library does not build %s: %s' % (vwhat, e.detail[-600:])})
 
+    if cases and st.get('cxx_exe') and cxx_results is not None and pid in ('C01', 'C07', 'C09', 'C17') and not os.environ.get('VERIF_NO_NDEBUG'):
+        # floating-point contraction as the user's compiler may apply it (clang++ -O2 -mfma -ffp-contract=on fuses a*b+c): the model does
+        # not describe such a build bit for bit, so only the property's oracle is evaluated on its outputs (geometric / discrete
+        # properties whose oracles do not depend on the last bit: a point lies in its reported bin, a selected channel is enabled, ...)
+        try:
+            t1 = time.time()
+            fma = tie.cxx_build('-O2 -mfma -ffp-contract=on' + (' -DVERIF_MPI' if use_mpi else ''), 'clangfma' + ('-mpi' if use_mpi else ''), cxx='clang++')
+            env = dict(os.environ); env['VERIF_TMP'] = os.path.join(BUILD, 'tmp')
+            sel = [(c_, m_) for c_, m_ in zip(cases, metas) if not m_.get('model_only')]
+            if a.tier != 'thorough' and len(sel) > 600:
+                rng5 = random.Random(seed * 32452843 + int(pid[1:])); sel = rng5.sample(sel, 600)
+            lines = [dump([i, t, cmd, args, []]) for ((i, t, cmd, args), m_) in sel]
+            outs = tie.run_driver(fma, lines, env=env, chunk=50, timeout=3000, cpu_limit=300)
+            res5 = []
+            for (c_, m_), o in zip(sel, outs):
+                try: po = parse(o)[1]
+                except Exception: po = ['crash']
+                res5.append({'case': c_, 'cxx': po, 'model': None})
+            v5 = props.oracle(pid, res5, [m_ for c_, m_ in sel], dict(st, cxx_exe=fma))
+            thorough_extra['contraction_build'] = {'cases': len(sel), 'oracle_violations': len(v5), 'wall_s': round(time.time() - t1, 1)}
+            for v in v5[:3]:
+                sanitizer_viol.append(dict(v, what='compiled with clang++ -O2 -mfma (floating-point contraction on): ' + v['what']))
+        except Stage as e:
+            thorough_extra['contraction_build'] = {'build_failed': e.detail[-300:]}
+        except Exception:
+            thorough_extra['contraction_build'] = {'oracle_failed': traceback.format_exc()[-300:]}
+
     # C++-only differential / oracle stage (things the model cannot execute: real engines, real MPI, system calls)
     try:
         extra = props.extra_checks(pid, rng, a.tier, st, cov) if st.get('cxx_exe') else []
